@@ -84,11 +84,27 @@ def packaged_relations(system):
         raise HarnessError(f"the reference parser does not understand {p}: {e}")
 
 
-def param_values(system, nv, ints=False, small=False):
+SHAPES = ("smooth", "dip")
+DROPS = (1e-8, 0.1, 1.0)
+DIP = 0.04        # |value| at the dip volume: <= drop_atol/2 for drop_atol in {0.1, 1.0}, >> 1e-8
+
+
+def dip_row(nv):
+    return min(1, nv - 1)
+
+
+def param_values(system, nv, ints=False, small=False, shape="smooth"):
     """nv lists of d independent parameters (values of the pivot components of laue_ref.invariant_basis).
     floats: distinct non-integer values, all different, varying with volume at parameter-specific rates;
     ints: even integers (so that (c11-c12)/2 is an integer too);
-    small: the LAST parameter lies in [0.31, 0.47] at every volume (used by C09 with drop_atol = 1.0)."""
+    small: the LAST parameter lies in [0.31, 0.47] at every volume (used by C09 with drop_atol = 1.0);
+    shape "dip": components that are RETAINED but pass within drop_atol of zero at exactly one volume (dip_row):
+      the last independent parameter (a diagonal shear constant, with its dependents c55/c66 where the class has
+      them) runs 3.0 ... 0.04 ... -2.7 (crosses zero), and c12 = c11 - 0.08 at that volume, so that the GENERATED
+      c66 = (c11 - c12)/2 of the hexagonal/trigonal classes is 0.04 there and O(10) elsewhere.  (ints: 4, 0, -4 and
+      c12 = c11.)  With one volume only, these components are below drop_atol at ALL volumes and must be omitted."""
+    if shape not in SHAPES:
+        raise HarnessError(f"unknown value shape {shape}")
     d = L.dimension(system)
     out = []
     for i in range(nv):
@@ -100,14 +116,32 @@ def param_values(system, nv, ints=False, small=False):
                 row.append(310.37 - 12.83 * k + 0.3713 * ((k * k) % 7) + (3.17 + 0.77 * k) * i + 0.0531 * i * i)
         if small and not ints:
             row[-1] = 0.31 + 0.04 * i
+        if shape == "dip":
+            k = dip_row(nv)
+            if ints:
+                row[-1] = float(4 * (k - i))
+            else:
+                row[-1] = 3.0 if i < k else (DIP if i == k else -2.7 - 0.1 * i)
+            if i == k:
+                row[1] = row[0] - (0.0 if ints else 2 * DIP)
         out.append(row)
     return out
 
 
-def expected_tensor(system, nv, ints=False, small=False):
+def expected_tensor(system, nv, ints=False, small=False, shape="smooth"):
     """(21, nv) float array: the invariant tensor at every volume"""
-    cols = [L.tensor_from_params(system, p) for p in param_values(system, nv, ints, small)]
+    cols = [L.tensor_from_params(system, p) for p in param_values(system, nv, ints, small, shape)]
     return numpy.array(cols, dtype=float).T
+
+
+def expected_presence(E, drop):
+    """a component is omitted iff it is below drop_atol at ALL volumes.  The generated values stay a factor 2 away
+    from the threshold (otherwise the harness is wrong, not the tree)."""
+    mx = numpy.abs(E).max(axis=1)
+    for j in range(21):
+        if mx[j] != 0 and drop / 2 < mx[j] < 2 * drop:
+            raise HarnessError(f"component {L.NAMES[j]} has max |value| {mx[j]} within a factor 2 of drop_atol {drop}")
+    return mx > drop
 
 
 def volumes(nv, ints=False):
@@ -136,7 +170,7 @@ def is_modulus_name(name):
     return str(name).lower() in L.INDEX
 
 
-def check_invariant_result(system, S, E, vin, res, viol, tag, note=""):
+def check_invariant_result(system, S, E, vin, res, viol, tag, note="", drop=1e-8):
     """`res` (DataFrame returned by the real code) against the invariant tensor E (21, nv).
     S: supplied component indices; vin: the V column passed in."""
     import pandas
@@ -157,11 +191,20 @@ def check_invariant_result(system, S, E, vin, res, viol, tag, note=""):
     elif not (cols["v"].dtype == vin.dtype and numpy.array_equal(cols["v"], vin)):
         viol.append(V(f"{tag}:{system}:V-changed", f"{system} S={names(S)}: V came back as {cols['v'].tolist()} (was {vin.tolist()})"))
     nvn = set(L.nonvanishing(system))
+    keep = expected_presence(E, drop)
     for name in cols:
         if name != "v" and name not in L.INDEX:
             viol.append(V(f"{tag}:{system}:unexpected-column", f"{system} S={names(S)}: unexpected column {name!r}"))
     for j, name in enumerate(L.NAMES):
-        if j in nvn:
+        if j in nvn and not keep[j] and (name not in cols or L.dimension(system) < 21):
+            # omission by drop_atol.  Not asserted for a system WITHOUT relations (triclinic): there the tree returns the
+            # table before its drop step, which is C09's recorded finding F10 (c09:*below-drop-atol-present:no-relations);
+            # C09 asserts and reports it, C08 does not report the same defect a second time.  Values are still checked.
+            if name in cols:
+                viol.append(V(f"{tag}:{system}:below-drop-atol-present",
+                              f"{system} S={names(S)} nV={nv}{note}: {name} = {E[j].tolist()} is below drop_atol={drop} at all volumes "
+                              f"but present with values {numpy.asarray(cols[name]).tolist()}"))
+        elif j in nvn:
             if name not in cols:
                 viol.append(V(f"{tag}:{system}:missing-component",
                               f"{system} S={names(S)} nV={nv}{note}: non-vanishing component {name} is absent from {list(res.columns)}"))
@@ -297,42 +340,71 @@ def build_table(system, S, E, nv, ints=False):
     return pandas.DataFrame(data)
 
 
+def vanishing(system):
+    nvn = set(L.nonvanishing(system))
+    return [j for j in range(21) if j not in nvn]
+
+
+def with_vanishing(system, S, z):
+    """supplied components + vanishing ones supplied AS ZEROS (consistent data; they add no information):
+    z = none | zeros (all of them) | zero-one (the first one only)"""
+    van = vanishing(system)
+    if z == "none" or not van:
+        return list(S)
+    if z == "zeros":
+        return sorted(list(S) + van)
+    if z == "zero-one":
+        return sorted(list(S) + van[:1])
+    raise HarnessError(f"unknown z {z}")
+
+
+def fill_variants(system, extras):
+    """(nV, row labels, value shape, drop_atol, supplied vanishing zeros) for one subset"""
+    out = [(nv, rows, "smooth", DROPS[0], "none") for nv in NVS for rows in ROWS if not (rows == "reversed" and nv == 1)]
+    if extras:
+        out += [(2, "default", "dip", drop, "none") for drop in DROPS]
+        out += [(nv, "default", "dip", 0.1, "none") for nv in (1, 5)]
+        out += [(2, "default", "smooth", drop, "none") for drop in DROPS[1:]]
+        if vanishing(system):
+            out += [(2, "default", "smooth", DROPS[0], z) for z in ("zeros", "zero-one")]
+    return out
+
+
 def run_fill(case):
     from cij.util.fill import fill_cij
     s, mask = case["system"], case["mask"]
-    nvn = L.nonvanishing(s)
+    S0 = L.mask_to_subset(s, mask)
+    if not L.is_sufficient(s, S0):
+        raise HarnessError(f"{s}: mask {mask} is not sufficient")
     viol = []
     nfill = 0
     outcomes = set()
     with scratch_cwd():
-        for nv in NVS:
-            E = expected_tensor(s, nv)
-            for j in nvn:
-                if not numpy.abs(E[j]).max() > 1.0:
-                    raise HarnessError(f"{s}: generated non-vanishing component {L.NAMES[j]} is (nearly) zero")
-            S = L.mask_to_subset(s, mask)
-            if not L.is_sufficient(s, S):
-                raise HarnessError(f"{s}: mask {mask} is not sufficient")
-            for rows in ROWS:
-                if rows == "reversed" and nv == 1:
-                    continue                 # one row: the reversed labels are the default labels
-                table = relabel_rows(build_table(s, S, E, nv), rows)
-                vin = table["V"].to_numpy().copy()
-                nfill += 1
-                tag = "c08:fill" if rows == "default" else f"c08:fill:rows-{rows}"
-                try:
-                    res = fill_cij(table.copy(), s)
-                except BaseException as ex:
-                    if isinstance(ex, (KeyboardInterrupt, SystemExit)):
-                        raise
-                    viol.append(V(f"{tag}:{s}:raises:{type(ex).__name__}",
-                                  f"fill_cij(table[V,{','.join(names(S))}], {s!r}) with nV={nv}, row labels {list(table.index)} raised "
-                                  f"{type(ex).__name__}: {str(ex)[:160]} although the supplied components determine the tensor"))
-                    outcomes.add("raises")
-                    continue
-                n0 = len(viol)
-                check_invariant_result(s, S, E, vin, res, viol, tag, note=f" row labels {list(table.index)}")
-                outcomes.add("ok" if len(viol) == n0 else "wrong")
+        for nv, rows, shape, drop, z in fill_variants(s, case.get("extras", False)):
+            E = expected_tensor(s, nv, shape=shape)
+            S = with_vanishing(s, S0, z)
+            table = relabel_rows(build_table(s, S, E, nv), rows)
+            vin = table["V"].to_numpy().copy()
+            nfill += 1
+            dev = ([f"rows-{rows}"] if rows != "default" else []) + ([shape] if shape != "smooth" else []) + \
+                  ([f"drop{drop:g}"] if drop != DROPS[0] else []) + ([f"z-{z}"] if z != "none" else [])
+            tag = ":".join(["c08:fill"] + dev)
+            kw = {} if drop == DROPS[0] else {"drop_atol": drop}
+            note = f" row labels {list(table.index)}" + (f" value shape {shape}" if shape != "smooth" else "") + \
+                   (f" drop_atol={drop}" if kw else "") + (f" with vanishing components supplied as 0 ({z})" if z != "none" else "")
+            try:
+                res = fill_cij(table.copy(), s, **kw)
+            except BaseException as ex:
+                if isinstance(ex, (KeyboardInterrupt, SystemExit)):
+                    raise
+                viol.append(V(f"{tag}:{s}:raises:{type(ex).__name__}",
+                              f"fill_cij(table[V,{','.join(names(S))}], {s!r}{', drop_atol=%g' % drop if kw else ''}) with nV={nv},{note} raised "
+                              f"{type(ex).__name__}: {str(ex)[:160]} although the supplied components determine the tensor"))
+                outcomes.add("raises")
+                continue
+            n0 = len(viol)
+            check_invariant_result(s, S, E, vin, res, viol, tag, note=note, drop=drop)
+            outcomes.add("ok" if len(viol) == n0 else "wrong")
     return {"viol": dedupe(viol, 1), "outcome": f"fill:{s}:" + "+".join(sorted(outcomes)),
             "key": f"fill:{s}:{mask}", "nfill": nfill}
 
@@ -344,21 +416,22 @@ def run_elastdata(case):
     from cij.util import c_
     from collections import OrderedDict
     s, nv, mask = case["system"], case["nv"], case["mask"]
+    z, shape, drop = case.get("z", "none"), case.get("shape", "smooth"), case.get("drop", DROPS[0])
     S = L.mask_to_subset(s, mask)
     if not L.is_sufficient(s, S):
         raise HarnessError(f"{s}: mask {mask} is not sufficient")
-    E = expected_tensor(s, nv)
+    S = with_vanishing(s, S, z)
+    E = expected_tensor(s, nv, shape=shape)
     vol = volumes(nv)
     symmetry = {"system": s}
     if case["full_keys"]:
         symmetry.update(DEFAULT_SYMMETRY)
-    data = ElastData(100.25, nv, 120.5, [], [])
-    for i in range(nv):
-        data.volumes.append(ElastVolumeData(float(vol[i]), OrderedDict((c_(*L.PAIRS21[j]), float(E[j, i])) for j in S)))
+    if drop != DROPS[0]:
+        symmetry["drop_atol"] = drop
+    data = make_elastdata(S, E, vol)
     viol = []
-    scale = float(numpy.abs(E).max())
-    tol = RTOL * scale + ATOL_REL * scale
-    tag = f"apply_symetry_on_elast_data(ElastData[{','.join(names(S))}] x {nv} volumes, {symmetry})"
+    tag = (f"apply_symetry_on_elast_data(ElastData[{','.join(names(S))}] x {nv} volumes, {symmetry})"
+           + (f" value shape {shape}" if shape != "smooth" else "") + (f" vanishing components listed as 0 ({z})" if z != "none" else ""))
     with scratch_cwd():
         try:
             ret = apply_symetry_on_elast_data(data, dict(symmetry))
@@ -369,9 +442,9 @@ def run_elastdata(case):
                     "outcome": "elastdata:raises"}
     if ret is not None and ret is not data:
         data = ret       # tolerate a functional variant
-    check_elastdata(data, s, S, E, vol, tag, viol, "c08:elastdata")
+    check_elastdata(data, s, S, E, vol, tag, viol, "c08:elastdata", drop=drop)
     return {"viol": dedupe(viol), "outcome": f"elastdata:{s}:{'ok' if not viol else 'wrong'}",
-            "key": f"elastdata:{s}:{mask}:{nv}:{case['full_keys']}"}
+            "key": f"elastdata:{s}:{mask}:{nv}:{case['full_keys']}:{z}:{shape}:{drop}"}
 
 
 def make_elastdata(S, E, vol):
@@ -385,9 +458,12 @@ def make_elastdata(S, E, vol):
     return data
 
 
-def check_elastdata(data, s, S, E, vol, tag, viol, sig):
-    """an ElastData object after symmetry was applied, against the invariant tensor E (21, nv)"""
+def check_elastdata(data, s, S, E, vol, tag, viol, sig, drop=1e-8):
+    """an ElastData object after symmetry was applied, against the invariant tensor E (21, nv): every volume's table
+    holds exactly the components that are not below drop_atol at all volumes (so never a vanishing one, even when
+    the input listed it as 0), with the invariant tensor's values"""
     nv = len(vol)
+    keep = expected_presence(E, drop)
     scale = float(numpy.abs(E).max())
     tol = RTOL * scale + ATOL_REL * scale
     nvn = set(L.nonvanishing(s))
@@ -404,7 +480,10 @@ def check_elastdata(data, s, S, E, vol, tag, viol, sig):
             except Exception:
                 viol.append(V(f"{sig}:{s}:unexpected-key", f"{tag}: key {key!r} in the filled table of volume {i}"))
         for j, name in enumerate(L.NAMES):
-            if j in nvn:
+            if j in nvn and not keep[j] and (j not in got or L.dimension(s) < 21):     # see check_invariant_result
+                if j in got:
+                    viol.append(V(f"{sig}:{s}:below-drop-atol-present", f"{tag}: {name} = {E[j].tolist()} is below drop_atol={drop} at all volumes but present ({got[j]!r}) at volume {i}"))
+            elif j in nvn:
                 if j not in got:
                     viol.append(V(f"{sig}:{s}:missing-component", f"{tag}: {name} absent at volume {i}"))
                 elif not abs(got[j] - E[j, i]) <= tol:
@@ -412,7 +491,8 @@ def check_elastdata(data, s, S, E, vol, tag, viol, sig):
                     viol.append(V(f"{sig}:{s}:{kind}",
                                   f"{tag}: {name} at volume {i} is {got[j]!r}, invariant tensor has {float(E[j, i])!r}"))
             elif j in got:
-                viol.append(V(f"{sig}:{s}:vanishing-present", f"{tag}: vanishing component {name} present ({got[j]!r}) at volume {i}"))
+                viol.append(V(f"{sig}:{s}:vanishing-present" + (":listed-as-zero" if j in S else ""),
+                              f"{tag}: vanishing component {name} present ({got[j]!r}) at volume {i}"))
 
 
 # --------------------------------------------------------------------------- part 4 (mode B)
@@ -422,14 +502,15 @@ HISTORY_OPS = ("A1", "A2", "B1", "F")     # apply(dictA, table1), apply(dictA, t
 
 def run_history(case):
     """One history of applications sharing the settings dict objects dictA and dictB.  table1 = the minimal
-    sufficient set (2 volumes, float parameters), table2 = the full non-vanishing set (3 volumes, the integer-valued
-    parameter set): fresh data objects for every operation, only the settings objects are shared."""
+    sufficient set + the first vanishing component listed as 0 (2 volumes, float parameters), table2 = all 21
+    components, the vanishing ones as 0 (3 volumes, the integer-valued parameter set): fresh data objects for every operation, only the settings objects are shared."""
     from cij.io.traditional.elast_dat import apply_symetry_on_elast_data
     from cij.util.fill import fill_cij
     s, hist = case["system"], case["history"]
     n = len(L.nonvanishing(s))
-    S1 = L.mask_to_subset(s, minimal_mask(s))
-    S2 = L.mask_to_subset(s, (1 << n) - 1)
+    # table1 also lists the first vanishing component as 0, table2 all of them (consistent; they must not survive)
+    S1 = with_vanishing(s, L.mask_to_subset(s, minimal_mask(s)), "zero-one")
+    S2 = with_vanishing(s, L.mask_to_subset(s, (1 << n) - 1), "zeros")
     E1, vol1 = expected_tensor(s, 2), volumes(2)
     E2, vol2 = expected_tensor(s, 3, ints=True), volumes(3)
     dictA = {"system": s}
@@ -561,13 +642,27 @@ def explore(ctx):
         if len(masks) < len(allm):
             complete = False
         counts[s] = {"subsets_of_nonvanishing": 2 ** len(L.nonvanishing(s)), "sufficient": len(allm), "explored": len(masks)}
+        d, full = L.dimension(s), (1 << len(L.nonvanishing(s))) - 1
+        nx = 0
         for m in sorted(masks, key=lambda m: (popcount(m), m)):
-            cases.append({"kind": "fill", "system": s, "mask": m})
-    nf = len(cases) * (len(NVS) * len(ROWS) - 1)
+            c = {"kind": "fill", "system": s, "mask": m}
+            # value shape x drop_atol x supplied vanishing zeros: thorough on every subset, quick on the minimal
+            # sufficient sets (|S| = d) and the full set of every system
+            if not ctx.quick or popcount(m) == d or m == full:
+                c["extras"] = True
+                nx += 1
+            cases.append(c)
+        counts[s]["with_shape_drop_zero_variants"] = nx
+    nf = sum(len(fill_variants(c["system"], c.get("extras", False))) for c in cases)
     res = ctx.run(MOD, "run_case", cases, part="fill", states=nf, transitions=nf, chunksize=4)
     ctx.notes["fill_subsets"] = counts
     ctx.notes["fill_calls"] = sum(r.get("nfill", 0) for r in res)
     ctx.notes["n_V_alphabet"] = list(NVS)
+    ctx.notes["not_asserted"] = ("omission by drop_atol of a non-vanishing component for triclinic (no relations): recorded C09 finding "
+                                 "F10, asserted and reported by C09 only")
+    ctx.notes["value_shape_alphabet"] = list(SHAPES)
+    ctx.notes["drop_atol_alphabet"] = list(DROPS)
+    ctx.notes["fill_variants_per_subset"] = {"base": len(fill_variants("cubic", False)), "with_extras": len(fill_variants("cubic", True))}
     if not complete:
         ctx.exhaustive = False
     # ---- part 3
@@ -578,6 +673,12 @@ def explore(ctx):
             for nv in (1, 2):
                 for fk in (False, True):
                     cases.append({"kind": "elastdata", "system": s, "mask": mask, "nv": nv, "full_keys": fk})
+                    if vanishing(s):      # the input lists vanishing components explicitly, as zeros
+                        for z in ("zeros", "zero-one"):
+                            cases.append({"kind": "elastdata", "system": s, "mask": mask, "nv": nv, "full_keys": fk, "z": z})
+                # value shape x drop_atol through the settings dict
+                for drop in DROPS:
+                    cases.append({"kind": "elastdata", "system": s, "mask": mask, "nv": nv, "full_keys": False, "shape": "dip", "drop": drop})
     ctx.run(MOD, "run_case", cases, part="elastdata")
     # ---- part 4 (mode B): shared settings objects
     import itertools
@@ -605,4 +706,18 @@ def selftest():
         ok &= bool(numpy.all(Ei == numpy.round(Ei))) and all(numpy.abs(Ei[j]).max() >= 2 for j in nvn)
         ok &= minimal_mask(s) in sufficient_masks(s) or len(nvn) == L.dimension(s)
     ok &= [len(sufficient_masks(s)) for s in L.SYSTEMS] == [1, 1, 1, 81, 27, 4410, 630, 90, 343]
+    # dip shape: the last parameter and the generated c66 of hexagonal/trigonal are 0.04 at exactly one volume, O(1)+ elsewhere
+    for s in L.SYSTEMS:
+        for nv in (2, 5):
+            E = expected_tensor(s, nv, shape="dip")
+            k = dip_row(nv)
+            last = L.invariant_basis(s)[1][-1]
+            ok &= abs(abs(E[last, k]) - DIP) < 1e-12 and all(abs(E[last, i]) >= 2.0 for i in range(nv) if i != k)
+            ok &= E[last, 0] > 0 and (nv < 3 or E[last, nv - 1] < 0)
+            if s in ("hexagonal", "trigonal6", "trigonal7"):
+                c66 = L.INDEX["c66"]
+                ok &= abs(E[c66, k] - DIP) < 1e-9 and all(abs(E[c66, i]) >= 2.0 for i in range(nv) if i != k)
+            for drop in DROPS:
+                expected_presence(E, drop)
+        expected_presence(expected_tensor(s, 1, shape="dip"), 0.1)
     return bool(ok)
